@@ -967,6 +967,23 @@ def run(chk):
                               % ("does not finish within 120 s" if rc1 == 124 else "crashes", rc1, (pv.sanitizer_digest(err1) or err1[-300:]).strip()[-300:]),
                               {"harness": "h_c07", "scenario": small.text()})
                 return
+        # nothing when run alone: memory corrupted by an earlier case only shows later.  The same batch under AddressSanitizer stops at
+        # the first invalid access, i.e. inside the case that makes it
+        try:
+            ha = pv.build_harness("h_c07", "asan")
+            inp = "".join("case %d\n%s\nend\n" % (k, sc.text()) for k, sc in enumerate(scens))
+            rca, outa, erra = pv.run_harness(ha, inp, timeout=900)
+            ra = parse_records(outa, True)
+            ka = next((k for k in range(len(scens)) if not (ra.get(str(k), {}).get("ended") or ra.get(str(k), {}).get("died"))), None)
+            dig = pv.sanitizer_digest(erra)
+            if rca != 0 and ka is not None and dig:
+                chk.violation("analysis-corrupts-memory: " + scens[ka].canon(),
+                              "the symmetry analysis / block construction of this lattice makes an invalid memory access (AddressSanitizer build of the "
+                              "same harness and batch; the plain build died %d cases later): %s" % ((first or 0) - ka, dig[-300:]),
+                              {"harness": "h_c07", "variant": "asan", "scenario": scens[ka].text()})
+                return
+        except pv.BuildError as ex:
+            chk.notes.append("ASan build of h_c07 unavailable: %s" % str(ex)[:200])
         chk.tie_broken("h_c07", "harness answered %d of %d cases (rc=%d) %s" % (len(recs), len(scens), rc, err[-300:]))
         return
     mods, rc2, err2 = run_model(drv, scens, recs, fixed_sz, shiftfix)
@@ -1112,9 +1129,11 @@ def replay(chk, path):
               rec_first_diff(recs.get("seq%d" % (len(hist) - 1), {}), recs.get("own", {})) or "no difference")
         return 0
     if isinstance(rp, dict) and "scenario" in rp:
-        h = pv.build_harness("h_c07")
+        h = pv.build_harness("h_c07", rp.get("variant", "real"))
         rc, out, err = pv.run_harness(h, "case 0\n%s\nend\n" % rp["scenario"])
         print("implementation:\n" + out)
+        if rp.get("variant") == "asan":
+            print("exit code %s\n%s" % (rc, pv.sanitizer_digest(err)))
         rec = parse_records(out, True).get("0", {})
         if rec and "error" not in rec:
             for f in property_failures(rec):
